@@ -72,6 +72,25 @@ def tie_trees(r, n):
     return out
 
 
+def far_trees(r, thorough):
+    """a repeated atom / sub-tree of classic length S whose earlier copy is about 8*(S-2) steps away on the parse
+    stack: there the PATH atom itself reaches 64 bytes and needs a two-byte size prefix, so whether the
+    back-reference still pays off changes by one byte within a window of eight distances"""
+    out = []
+    sizes = (64, 65, 66, 70, 100) if thorough else (64, 66)
+    for s in sizes:
+        x = bytes(r.getrandbits(8) | 1 for _ in range(s))
+        half = s // 4 - 1
+        sub = ((bytes([1] * half), bytes([2] * (half + 1))), (bytes([2] * (half + 1)), bytes([2] * (half + 1))))
+        for n in range(8 * s - 13, 8 * s + 4):
+            for rep in (x, sub):
+                t = rep
+                for i in range(n):
+                    t = (gen.int_to_bytes(1 + (i * 7) % 120), t)
+                out.append((rep, t))
+    return out
+
+
 def run(ctx):
     r = ctx.rng
     ctx.rule = ("DAG-shared trees: random shapes over a small atom pool with sub-tree reuse probability 0-0.5, towers that repeat one "
@@ -122,7 +141,7 @@ def run(ctx):
             ctx.violation("node_to_bytes_backrefs_limit: limit %d, unlimited length %d: %s" % (lim, n, o[:120]),
                           {"case": c, "family": "br", "impl": o})
     # 2. the property itself on the implementation: larger trees
-    trees = small + gen_trees(ctx, ctx.scale(2500, 60000), 80)
+    trees = small + gen_trees(ctx, ctx.scale(2500, 60000), 80) + far_trees(r, ctx.thorough)
     lines = ["rt " + gen.tt(t) for t in trees]
     outs = vlib.run_impl("br", lines)
     seen = set()
